@@ -118,6 +118,9 @@ var plans = []planT{
 	// the same URI in two adjacent distribution points
 	{c: []string{"clean", "clean"}, ck: []string{"http", "same"}},
 	{o: []string{"unknown-status"}, c: []string{"lists", "lists", "clean"}, ck: []string{"http", "same", "http"}},
+	// distribution points that differ in nothing but their query string
+	{c: []string{"clean", "lists"}, ck: []string{"httpq", "httpq"}},
+	{o: []string{"unknown-status"}, c: []string{"delta-ok", "clean", "delta-lists"}, ck: []string{"httpq", "httpq", "httpq"}},
 }
 
 func mkScenario(length int, assign []int, entry, route, cache string) sims.Scenario {
@@ -140,6 +143,13 @@ func scenarios(rng *rand.Rand, n int) []sims.Scenario {
 	for _, a := range fixed {
 		out = append(out, mkScenario(len(a)+1, a, "validate", "http", ""))
 	}
+	// with a cache: query-distinguished distribution points, and entries left by
+	// an earlier run whose delta has expired
+	for i, a := range [][]int{{16, 17}, {17, 16, 10}, {5, 9}, {10, 17}} {
+		sc := mkScenario(len(a)+1, a, "validate", "http", "healthy")
+		sc.PreloadStale = i%2 == 1 || i >= 2
+		out = append(out, sc)
+	}
 	for len(out) < n {
 		l := 2 + rng.IntN(4)
 		a := make([]int, l-1)
@@ -154,6 +164,7 @@ func scenarios(rng *rand.Rand, n int) []sims.Scenario {
 		sc := mkScenario(l, a, "validate", route, cache)
 		// half of the cached scenarios discard cache errors
 		sc.Discard = cache != "" && len(out)%2 == 0
+		sc.PreloadStale = cache != "" && len(out)%3 == 0
 		out = append(out, sc)
 	}
 	return out
@@ -242,6 +253,12 @@ func Cases(quick bool, seed int64) []Case {
 		for _, n := range callerCounts {
 			a := mkScenario(4, []int{2, 8, 5}, "validate", "http", "healthy")
 			b := mkScenario(5, []int{3, 9, 10, 1}, "validate", "http", "healthy")
+			if rep%2 == 1 {
+				// the shared cache starts out with entries whose delta has expired;
+				// and one chain's distribution points differ in their query only
+				a = mkScenario(4, []int{17, 8, 5}, "validate", "http", "healthy")
+				a.PreloadStale, b.PreloadStale = true, true
+			}
 			out = append(out, Case{Kind: "callers", Sc: a, Sc2: &b, Callers: n})
 		}
 	}
@@ -342,9 +359,9 @@ func panicPoints(sc *sims.Scenario) []string {
 		}
 		for j := range sc.Plans[pos].CRL {
 			if sc.CRLRoute == "fetcher" {
-				out = append(out, "fetch:"+f.URL(pos, "d", j, "http"))
+				out = append(out, "fetch:"+f.URL(pos, "d", j, sc.Plans[pos].Shape.CRL[j]))
 			} else {
-				out = append(out, f.Host(pos, "d", j)+"/base.crl")
+				out = append(out, f.BaseRoute(pos, j, sc.Plans[pos].Shape.CRL[j]))
 			}
 		}
 	}
@@ -357,7 +374,16 @@ func panicPoints(sc *sims.Scenario) []string {
 			out = append(out, "read:"+f.Host(pos, "o", 0))
 		}
 		if len(sc.Plans[pos].CRL) > 0 && sc.Entry != "ocsp" && sc.CRLRoute == "http" {
-			out = append(out, "read:"+f.Host(pos, "d", 0)+"/base.crl")
+			out = append(out, "read:"+f.BaseRoute(pos, 0, sc.Plans[pos].Shape.CRL[0]))
+		}
+		// the exchange for a delta CRL (the second one of a distribution point)
+		for j, beh := range sc.Plans[pos].CRL {
+			if strings.HasPrefix(beh, "delta-") && sc.Entry != "ocsp" && sc.CRLRoute == "http" && sc.Plans[pos].Shape.CRL[j] != "same" {
+				out = append(out, f.Host(pos, "d", j)+"/delta0.crl")
+				if j == 0 {
+					out = append(out, "read:"+f.Host(pos, "d", j)+"/delta0.crl")
+				}
+			}
 		}
 	}
 	return out
@@ -372,9 +398,9 @@ func firstPerCert(sc *sims.Scenario) []string {
 			out = append(out, f.Host(pos, "o", 0))
 		case len(sc.Plans[pos].CRL) > 0 && sc.Entry != "ocsp":
 			if sc.CRLRoute == "fetcher" {
-				out = append(out, "fetch:"+f.URL(pos, "d", 0, "http"))
+				out = append(out, "fetch:"+f.URL(pos, "d", 0, sc.Plans[pos].Shape.CRL[0]))
 			} else {
-				out = append(out, f.Host(pos, "d", 0)+"/base.crl")
+				out = append(out, f.BaseRoute(pos, 0, sc.Plans[pos].Shape.CRL[0]))
 			}
 		}
 	}
@@ -530,6 +556,12 @@ func afterCall(rec *Record, env *sims.Env) {
 	}
 	if rec.Sig != "" {
 		return
+	}
+	if env.Cache != nil {
+		if mod := env.Cache.Modified(); len(mod) > 0 {
+			rec.Sig, rec.What = "cached-bundle-modified", fmt.Sprintf("bundle objects the caller's cache holds (and hands to every caller) were written to: %v", mod)
+			return
+		}
 	}
 	if inFlight > 0 {
 		rec.Sig, rec.What = "cache-operation-left-open", fmt.Sprintf("%d operation(s) on the caller's cache were still in flight when the call returned", inFlight)
@@ -840,6 +872,13 @@ func execCallers(rec *Record, c Case) {
 		return
 	}
 	cache := sims.NewCache()
+	for _, e := range []*sims.Env{envA, envB} {
+		if e.Cache != nil {
+			for url, b := range e.Cache.M {
+				cache.Preload(url, b) // what an earlier run left behind
+			}
+		}
+	}
 	hf.Cache = cache
 	v, err := revocation.NewWithOptions(revocation.Options{OCSPHTTPClient: client, CRLFetcher: hf})
 	if err != nil {
@@ -891,6 +930,7 @@ func execCallers(rec *Record, c Case) {
 	}
 	rec.Exchanges = net.Requests()
 	rec.Canon = fmt.Sprintf("%d results compared, %d cache operations", n, len(cache.Log()))
+	envA.Cache = cache // the cache the callers actually shared
 	afterCall(rec, envA)
 }
 
